@@ -284,15 +284,19 @@ def emit_problems(circuit):
     return probs
 
 
-def fixed_anchor(circuit):
-    """{node id: (class name, q_registers, q_types)} for the emission CNOTs (emitter -> photon) and the measure-and-reset
-    operations present in a circuit *at the start of a history* — they were placed at initialisation, whatever their labels"""
+def fixed_anchor(circuit, initial=False):
+    """{node id: (class name, q_registers, q_types)} of the operations a mutation must never remove.
+    initial=True (the circuit is an initial solver circuit, nothing has been mutated yet): every emission CNOT
+    (emitter -> photon) and every measure-and-reset, whatever its labels — they were all placed at initialisation.
+    initial=False (mid-history circuit): only those carrying the Fixed label (unlabelled measure-and-resets may have been
+    added by a move and are legitimately removable)."""
     out = {}
     for n in circuit.dag.nodes:
         op = circuit.dag.nodes[n]["op"]
         name = type(op).__name__
         if name == "MeasurementCNOTandReset" or (name == "CNOT" and tuple(op.q_registers_type) == ("e", "p")):
-            out[n] = (name, tuple(op.q_registers), tuple(op.q_registers_type))
+            if initial or "Fixed" in op.labels:
+                out[n] = (name, tuple(op.q_registers), tuple(op.q_registers_type))
     return out
 
 
